@@ -80,7 +80,7 @@ class ExprStream(base.FileStream):
             for k, e in enumerate(FIXED_EXPRS):
                 yield {"paras": [dict(us, g=["*"], l=e)], "own": []}
                 yield {"paras": [dict(us, g=["*"], l="MIT"), dict(us, g=[["src/*", "docs/*", "*.md"][k % 3]], l=e, comment=True)], "own": [["src/a.c"], ["docs/x.md"]][k % 2]}
-        for _ in range(250 if tier == "thorough" else 12):
+        for _ in range(100 if tier == "thorough" else 12):
             paras = []
             files = rng.sample(self.TREE, len(self.TREE))
             for k in range(rng.randint(2, 8)):
@@ -173,7 +173,7 @@ class NfNamesStream(base.FileStream):
             for f in members:
                 for sp in nf_spellings(f):
                     yield {"paras": [dict(us, g=["*"]), dict(them, g=[sp])], "own": []}
-        for _ in range(250 if tier == "thorough" else 14):
+        for _ in range(100 if tier == "thorough" else 14):
             paras = []
             for k in range(rng.randint(2, 6)):
                 gs = []
